@@ -3,6 +3,7 @@ package main
 import (
 	"bufio"
 	"bytes"
+	"context"
 	"crypto/ecdsa"
 	"crypto/elliptic"
 	"crypto/rand"
@@ -46,11 +47,12 @@ type optIn struct {
 
 type mainIn struct {
 	Opts     []optIn   `json:"opts"`
-	Listener string    `json:"listener"` // http | https
+	Listener string    `json:"listener"` // http | https | https+tcp+sni
 	HostOpt  string    `json:"hostopt"`  // options of the static route the request is sent to
 	Strip    string    `json:"strip"`
 	Wire     []wireHdr `json:"wire"`
 	Host     string    `json:"host"`
+	H2       bool      `json:"h2"` // speak HTTP/2 to the TLS listener (its certificate source offers h2)
 }
 
 type mainOut struct {
@@ -208,6 +210,7 @@ type fabioProc struct {
 	exited   chan struct{}
 	plain    string // address of the proto=http listener
 	secure   string // address of the proto=https listener
+	sni      string // address of the proto=https+tcp+sni listener (no SNI route matches: falls through to HTTPS)
 	lastUsed int
 }
 
@@ -297,13 +300,14 @@ func startFabio(opts []optIn, upstream string) (*fabioProc, error) {
 		routes.WriteString("\n")
 	}
 	for attempt := 0; ; attempt++ {
-		ports, err := freeLoopbackPorts(3)
+		ports, err := freeLoopbackPorts(4)
 		if err != nil {
 			return nil, err
 		}
-		p := &fabioProc{plain: fmt.Sprintf("127.0.0.1:%d", ports[0]), secure: fmt.Sprintf("127.0.0.1:%d", ports[1])}
+		p := &fabioProc{plain: fmt.Sprintf("127.0.0.1:%d", ports[0]), secure: fmt.Sprintf("127.0.0.1:%d", ports[1]),
+			sni: fmt.Sprintf("127.0.0.1:%d", ports[3])}
 		args := []string{"-insecure", "-registry.backend=static", "-registry.static.routes=" + routes.String(),
-			"-proxy.addr=" + p.plain + ";proto=http," + p.secure + ";proto=https;cs=lst",
+			"-proxy.addr=" + p.plain + ";proto=http," + p.secure + ";proto=https;cs=lst," + p.sni + ";proto=https+tcp+sni;cs=lst",
 			"-proxy.cs=cs=lst;type=file;cert=" + cert + ";key=" + key,
 			fmt.Sprintf("-ui.addr=127.0.0.1:%d", ports[2]), "-log.level=WARN", "-proxy.shutdownwait=0s"}
 		env := []string{}
@@ -347,7 +351,7 @@ func startFabio(opts []optIn, upstream string) (*fabioProc, error) {
 		}
 		p.cmd, p.exited = cmd, make(chan struct{})
 		go func() { cmd.Wait(); close(p.exited) }()
-		up := waitListening(p.plain, p.exited) && waitListening(p.secure, p.exited)
+		up := waitListening(p.plain, false, p.exited) && waitListening(p.secure, true, p.exited) && waitListening(p.sni, true, p.exited)
 		if up {
 			p.started = true
 			return p, nil
@@ -373,11 +377,19 @@ func tailOf(s string, n int) string {
 	return s
 }
 
-// waitListening returns once the address accepts a connection (true) or the process has ended (false).
-func waitListening(addr string, exited chan struct{}) bool {
+// waitListening returns once the address accepts a connection - on the TLS listener: completes a handshake, the
+// certificate source is loaded after the listener is opened - (true) or the process has ended (false).
+func waitListening(addr string, secure bool, exited chan struct{}) bool {
 	deadline := time.Now().Add(60 * time.Second)
 	for time.Now().Before(deadline) {
 		c, err := net.DialTimeout("tcp", addr, time.Second)
+		if err == nil && secure {
+			tc := tls.Client(c, &tls.Config{InsecureSkipVerify: true})
+			tc.SetDeadline(time.Now().Add(5 * time.Second))
+			if err = tc.Handshake(); err != nil {
+				c.Close()
+			}
+		}
 		if err == nil {
 			c.Close()
 			return true
@@ -456,7 +468,7 @@ func runMain(raw json.RawMessage) (interface{}, error) {
 	if !ok {
 		return nil, errors.New("no static route with these options")
 	}
-	if in.Listener != "http" && in.Listener != "https" {
+	if in.Listener != "http" && in.Listener != "https" && in.Listener != "https+tcp+sni" {
 		return nil, errors.New("unknown listener")
 	}
 	e := getEnv()
@@ -474,9 +486,16 @@ func runMain(raw json.RawMessage) (interface{}, error) {
 	e.reached, e.uhost, e.uhdr, e.conn = false, "", nil, connOut{}
 	e.mu.Unlock()
 
+	if in.H2 {
+		return runMainH2(in, p, path, &out)
+	}
 	var c net.Conn
-	if in.Listener == "https" {
-		tc, err := tls.Dial("tcp", p.secure, &tls.Config{InsecureSkipVerify: true})
+	if in.Listener != "http" {
+		addr := p.secure
+		if in.Listener == "https+tcp+sni" {
+			addr = p.sni
+		}
+		tc, err := tls.Dial("tcp", addr, &tls.Config{InsecureSkipVerify: true})
 		if err != nil {
 			return nil, err
 		}
@@ -502,6 +521,60 @@ func runMain(raw json.RawMessage) (interface{}, error) {
 	out.Status, out.Reached, out.UHost, out.Hdr = resp.StatusCode, e.reached, e.uhost, canonHeader(e.uhdr)
 	out.STS = append(out.STS, resp.Header.Values("Strict-Transport-Security")...)
 	return out, nil
+}
+
+// runMainH2: the same request over HTTP/2 (net/http's client; header names travel in lower case as the protocol
+// demands, lines of one name keep their order; Connection / Upgrade cannot be sent).
+func runMainH2(in mainIn, p *fabioProc, path string, out *mainOut) (interface{}, error) {
+	addr := p.secure
+	switch in.Listener {
+	case "https":
+	case "https+tcp+sni":
+		addr = p.sni
+	default:
+		return nil, errors.New("HTTP/2 needs a TLS listener")
+	}
+	if in.Host == "" {
+		return nil, errors.New("HTTP/2 needs an authority")
+	}
+	req, err := http.NewRequest("GET", "https://"+addr+path+"/x", nil)
+	if err != nil {
+		return nil, err
+	}
+	req.Host = in.Host
+	for _, w := range in.Wire {
+		switch strings.ToLower(w.K) {
+		case "connection", "upgrade", "proxy-connection", "keep-alive", "transfer-encoding", "te", "host", "content-length":
+			return nil, errors.New("connection-specific header cannot be sent over HTTP/2")
+		}
+		req.Header.Add(w.K, *w.V)
+	}
+	local := ""
+	tr := &http.Transport{ForceAttemptHTTP2: true, TLSClientConfig: &tls.Config{InsecureSkipVerify: true}, DisableCompression: true,
+		DialContext: func(ctx context.Context, network, addr string) (net.Conn, error) {
+			c, err := (&net.Dialer{}).DialContext(ctx, network, addr)
+			if err == nil {
+				local = c.LocalAddr().String()
+			}
+			return c, err
+		}}
+	defer tr.CloseIdleConnections()
+	cl := &http.Client{Transport: tr, Timeout: 20 * time.Second, CheckRedirect: func(*http.Request, []*http.Request) error { return http.ErrUseLastResponse }}
+	resp, err := cl.Do(req)
+	if err != nil {
+		return nil, err
+	}
+	resp.Body.Close()
+	if resp.TLS == nil || resp.ProtoMajor != 2 {
+		return nil, fmt.Errorf("HTTP/2 was not negotiated (%s)", resp.Proto)
+	}
+	out.Conn = connOut{Remote: local, Proto: resp.Proto, TLS: true, TLSV: resp.TLS.Version, TLSC: resp.TLS.CipherSuite}
+	e := getEnv()
+	e.mu.Lock()
+	defer e.mu.Unlock()
+	out.Status, out.Reached, out.UHost, out.Hdr = resp.StatusCode, e.reached, e.uhost, canonHeader(e.uhdr)
+	out.STS = append(out.STS, resp.Header.Values("Strict-Transport-Security")...)
+	return *out, nil
 }
 
 // sendRaw writes one HTTP/1.1 request with the header lines exactly as given and reads the response head.
@@ -701,7 +774,22 @@ func genMain(r *hx.Rand, i int) interface{} {
 	} else {
 		in.Host = r.Pick(pHostChoices)
 	}
-	in.Listener = r.Pick([]string{"http", "http", "http", "https", "https"})
+	in.Listener = r.Pick([]string{"http", "http", "http", "https", "https", "https+tcp+sni"})
+	if in.Listener != "http" && r.Chance(1, 3) { // an HTTP/2 client
+		in.H2 = true
+		var w []wireHdr
+		for _, h := range in.Wire {
+			switch strings.ToLower(h.K) {
+			case "connection", "upgrade":
+			default:
+				w = append(w, h)
+			}
+		}
+		in.Wire = w
+		if in.Host == "" {
+			in.Host = "foo.com"
+		}
+	}
 	rt := mainRoutes[r.Intn(len(mainRoutes))]
 	if r.Chance(1, 2) {
 		rt = mainRoutes[0]
@@ -719,12 +807,15 @@ func init() {
 		Corpus: []interface{}{
 			mainIn{Listener: "http", Host: "foo.com"},
 			mainIn{Listener: "https", Host: "foo.com"},
+			mainIn{Listener: "https+tcp+sni", Host: "foo.com", Opts: full, Wire: []wireHdr{{"x-tls", sp("off")}, {"x-client-ip", sp("6.6.6.6")}}},
 			// a plain listener runs with the TLS header configured: that is what removes a forged copy
 			mainIn{Listener: "http", Host: "foo.com", Opts: full,
 				Wire: []wireHdr{{"x-tls", sp("on")}, {"X-TLS", sp("on")}, {"x-client-ip", sp("6.6.6.6")}, {"X-Forwarded-For", sp("6.6.6.6")}}},
 			mainIn{Listener: "https", Host: "client.example:8080", HostOpt: "up.example", Opts: full,
 				Wire: []wireHdr{{"x-tls", sp("off")}, {"x-client-ip", sp("6.6.6.6")}, {"Connection", sp("X-Tls, X-Client-Ip")}}},
 			mainIn{Listener: "https", Host: "foo.com", Opts: full, Wire: []wireHdr{{"Upgrade", sp("websocket")}, {"X-Forwarded-For", sp("9.9.9.9")}}},
+			mainIn{Listener: "https", H2: true, Host: "client.example:8443", HostOpt: "dst", Opts: full,
+				Wire: []wireHdr{{"x-tls", sp("off")}, {"x-client-ip", sp("6.6.6.6")}, {"x-forwarded-for", sp("6.6.6.6")}, {"x-forwarded-for", sp("7.7.7.7")}}},
 			// precedence: command line over environment over file
 			mainIn{Listener: "https", Host: "foo.com", Opts: []optIn{{"file", "proxy.header.tls", "X-File"}, {"env", "proxy.header.tls", "X-Env"},
 				{"arg", "proxy.header.tls", "X-Arg"}, {"arg", "proxy.header.tls.value", "1"}}, Wire: []wireHdr{{"X-File", sp("1")}, {"X-Env", sp("1")}}},
